@@ -28,9 +28,11 @@ if (eval "$runcmd") > /tmp/seedval/$id.demo2.txt 2>&1; then res "DEMO without ch
 cd /verif
 git -C /repo worktree remove --force "$val"; rm -rf "$val" /tmp/seedval/$id.*.txt
 # the checks against the change
+exec 9>/tmp/repo.lock; flock 9
 if git -C /repo apply "$out/patch.diff"; then
   ./run.sh all quick > "$out/checks.txt" 2>&1
-  git -C /repo checkout -- .
+  git -C /repo checkout -- . ; git -C /repo clean -fdq -- x app ante cmd types 2>/dev/null
+  flock -u 9
   res "CHECKS reporting a violation: $(grep -o 'VIOLATION property=C[0-9]*' "$out/checks.txt" | sed 's/VIOLATION property=//' | tr '\n' ' ')"
   grep -E "^  (VIOLATED|UNDECIDED)" "$out/checks.txt" | head -12 >> "$out/validation.log"
 else
